@@ -116,6 +116,7 @@ inductive Ev
   | newErr (inst : Nat)
   | end_
   | gor (n : Nat)
+  | cancelCtx (inst : Nat)             -- the application cancels the context it passed to Start
   | site (op : Nat) (fn : String)      -- the library function that issued store operation `op`
   deriving Repr, DecidableEq, Inhabited
 
